@@ -82,11 +82,9 @@ def Ranked (fs : FS) (rank : Str → Nat) : Prop :=
 def HdrRanked (rank : Str → Nat) (h : Hdr) : Prop :=
   ∀ d ∈ h.deps, ∀ dn dv, splitDep d = some (dn, dv) → rank dn < rank h.ns
 
-/-- the calls excluded from `C17_inv_partial`: a load-from-memory of a namespace that is
-    registered at ANOTHER version (the C code then replaces / duplicates / aborts instead of
-    reporting the conflict), and in-memory typelibs that close a dependency cycle -/
-def OpOk (rank : Str → Nat) (s : Repo) : Op → Prop
-  | .load hdr lazy => HdrRanked rank hdr ∧ ∀ v, getRegisteredStatus s hdr.ns (some hdr.ver) lazy ≠ .conflict v
+/-- the calls excluded from `C17_inv_partial`: in-memory typelibs that close a dependency cycle -/
+def OpOk (rank : Str → Nat) (_s : Repo) : Op → Prop
+  | .load hdr _ => HdrRanked rank hdr
   | _ => True
 
 def Guarded (fs : FS) (fuel : Nat) (rank : Str → Nat) : Repo → List Op → Prop
